@@ -23,6 +23,7 @@ func checkC12(r *core.Result) {
 		return
 	}
 	root := prog.Pkg("")
+	r.Counts["type switches read as assertion chains"] = desugarTypeSwitches(root)
 	info := root.TypesInfo
 	funcs := funcsOfFiles(root, "extensions.go")
 	regs, switches := findRegions(root, funcs)
@@ -127,35 +128,40 @@ func checkC12(r *core.Result) {
 	r.Floor("descriptor-taking arms", nDesc, 12)
 	// E2: ExtensionFieldNumber
 	if f := core.FindFunc(root, "ExtensionFieldNumber"); f != nil {
-		var ts *ast.TypeSwitchStmt
-		ast.Inspect(f.Decl.Body, func(n ast.Node) bool {
-			if t, ok := n.(*ast.TypeSwitchStmt); ok {
-				ts = t
-			}
-			return true
-		})
-		if ts == nil {
-			r.Fail("E2", "ExtensionFieldNumber type switch", prog.Pos(f.Pos()), "no type switch over the descriptor")
-		} else {
-			seen := map[string]bool{}
-			okDef := false
-			for _, cl := range ts.Body.List {
-				cc := cl.(*ast.CaseClause)
-				if cc.List == nil {
-					okDef = returnsError(info, cc.Body)
-					continue
-				}
-				for _, e := range cc.List {
-					if fam, ok := familyOfTypeExpr(info, e); ok {
-						seen[fam] = true
-					}
-				}
-			}
-			for _, fam := range []string{"gogo", "v1", "v2"} {
-				r.Ob("E2", "ExtensionFieldNumber handles the "+fam+" descriptor", prog.Pos(ts.Pos()), seen[fam], "no case for the "+fam+" runtime's descriptor type")
-			}
-			r.Ob("E2", "ExtensionFieldNumber rejects other descriptors", prog.Pos(ts.Pos()), okDef, "default arm must return an error")
+		// (a type switch has been read as the equivalent chain of comma-ok assertions, see desugarTypeSwitches)
+		seen := map[string]bool{}
+		var param types.Object
+		if ps := f.Decl.Type.Params.List; len(ps) == 1 && len(ps[0].Names) == 1 {
+			param = info.Defs[ps[0].Names[0]]
 		}
+		body := f.Decl.Body.List
+		for _, st := range body {
+			is, ok := st.(*ast.IfStmt)
+			if !ok {
+				continue
+			}
+			as, ok := is.Init.(*ast.AssignStmt)
+			if !ok || len(as.Lhs) != 2 || len(as.Rhs) != 1 {
+				continue
+			}
+			ta, ok := as.Rhs[0].(*ast.TypeAssertExpr)
+			okID, _ := as.Lhs[1].(*ast.Ident)
+			condID, _ := is.Cond.(*ast.Ident)
+			if !ok || ta.Type == nil || okID == nil || condID == nil || info.Uses[condID] != info.Defs[okID] {
+				continue
+			}
+			if id, ok := ast.Unparen(ta.X).(*ast.Ident); !ok || info.Uses[id] != param {
+				continue
+			}
+			if fam, ok := familyOfTypeExpr(info, ta.Type); ok && leavesBlock(is.Body.List) && !returnsError(info, is.Body.List) {
+				seen[fam] = true
+			}
+		}
+		for _, fam := range []string{"gogo", "v1", "v2"} {
+			r.Ob("E2", "ExtensionFieldNumber handles the "+fam+" descriptor", prog.Pos(f.Pos()), seen[fam], "no case for the "+fam+" runtime's descriptor type")
+		}
+		okDef := len(body) > 0 && returnsError(info, body[len(body)-1:])
+		r.Ob("E2", "ExtensionFieldNumber rejects other descriptors", prog.Pos(f.Pos()), okDef, "the function must end by returning an error for any other descriptor type")
 	} else {
 		r.Fail("anchor", "ExtensionFieldNumber", "", "function not found")
 	}
